@@ -49,6 +49,11 @@ def member_cells():
                     cells.append({"kind": kind, "attr": attr, "stmt": "none", "place": "-", "type_default": tdef, "type_access": taccess})
                     if kind == "binding":
                         cells.append({"kind": kind, "attr": attr, "stmt": "none", "place": "-", "type_default": tdef, "type_access": taccess, "multi": True})
+    # an extending type that overrides a binding of its parent: the parent's binding plays no part in the accessibility of the new one
+    for pacc in ("none", "private"):
+        for tdef in ("none", "private"):
+            for attr in ("none", "public", "private"):
+                cells.append({"kind": "binding", "attr": attr, "stmt": "none", "place": "-", "type_default": tdef, "type_access": "none", "overrides": pacc})
     return cells
 
 
@@ -105,8 +110,9 @@ def render_module(mname, cells, default, placement, st: fgen.Style, rng: random.
         elif k == "typector":
             # a derived type and a generic interface of the same name (user-defined constructor)
             cf = f"{mname}_cf{n}"
-            decl_blocks.append([f"{kw('type')}{a} :: {nm}", f"{kw('integer')} :: c{n}", f"{kw('end')} {kw('type')} {st.nm(nm)}",
-                                f"{kw('interface')} {st.nm(nm)}", f"{kw('module')} {kw('procedure')} {cf}", f"{kw('end')} {kw('interface')}"])
+            tdef = [f"{kw('type')}{a} :: {nm}", f"{kw('integer')} :: c{n}", f"{kw('end')} {kw('type')} {st.nm(nm)}"]
+            idef = [f"{kw('interface')} {st.nm(nm)}", f"{kw('module')} {kw('procedure')} {cf}", f"{kw('end')} {kw('interface')}"]
+            decl_blocks.append(tdef + idef if rng.random() < 0.6 else idef + tdef)  # the constructor interface may stand before the type definition
             contains += [f"{kw('function')} {cf}(i) {kw('result')}(r)", f"{kw('integer')}, {kw('intent')}(in) :: i", f"{kw('type')}({nm}) :: r", f"r%c{n} = i", st.kw("end") + " " + kw("function")]
             names[nm.lower() + "@interface"] = cell
         elif k in ("subroutine", "function"):
@@ -169,6 +175,17 @@ def render_module(mname, cells, default, placement, st: fgen.Style, rng: random.
                     lines.append(kw("private"))
                 lines.append(f"{kw('integer')} :: other{n}")
                 lines.append(f"{kw('real')}{a} :: {nm}" if a or st.dcolon() else f"{kw('real')} {nm}")
+            elif cell.get("overrides"):
+                par = f"{mname}_tp{n}"
+                pa = (", " + kw("private")) if cell["overrides"] == "private" else ""
+                pimpl = f"{mname}_bp{n}"
+                lines = [f"{kw('type')} :: {par}", f"{kw('integer')} :: other{n}", kw("contains"), f"{kw('procedure')}{pa} :: {nm} => {st.nm(pimpl)}", f"{kw('end')} {kw('type')}",
+                         f"{kw('type')}, {kw('extends')}({par}) :: {tn}", f"{kw('integer')} :: more{n}", kw("contains")]
+                if cell["type_default"] == "private":
+                    lines.append(kw("private"))
+                lines.append(f"{kw('procedure')}{a} :: {nm} => {st.nm(impl)}")
+                contains += [f"{kw('subroutine')} {pimpl}(self)", f"{kw('class')}({par}) :: self", st.kw("end") + " " + kw("subroutine"),
+                             f"{kw('subroutine')} {impl}(self)", f"{kw('class')}({tn}) :: self", st.kw("end") + " " + kw("subroutine")]
             else:
                 lines.append(f"{kw('integer')} :: other{n}")
                 lines.append(kw("contains"))
@@ -310,7 +327,7 @@ def case(arg):
             exp = expected_access(cell, default)
             obs = got.get(ename)
             key = (cell["kind"] + ("@interface" if ename.endswith("@interface") else ""), cell["attr"], cell["stmt"], cell["place"], default, placement,
-                   cell.get("type_default"), cell.get("type_access"), cell.get("multi", False))
+                   cell.get("type_default"), cell.get("type_access"), cell.get("multi", False), cell.get("overrides"))
             keys.add(key)
             if obs != exp:
                 kf = {"kind": "wrong_access", "entity": cell["kind"] + ("@interface" if ename.endswith("@interface") else ""), "attr": cell["attr"], "stmt": cell["stmt"], "place": cell["place"],
@@ -318,6 +335,8 @@ def case(arg):
                 if "type_default" in cell:
                     kf["type_default"] = cell["type_default"]
                     kf["type_access"] = cell["type_access"]
+                if cell.get("overrides"):
+                    kf["overrides_parent_binding"] = cell["overrides"]
                 viol.append({"kf": kf, "w": {"module": mname, "entity": ename, "cell": cell, "expected": exp, "observed": obs,
                                              "source": texts[mname], "seed": seed}})
             # `protected` is recorded for variables: where the accessibility comes from the declaration alone (no access statement
